@@ -16,7 +16,7 @@ EXTENDS Naturals, Sequences, FiniteSets, TLC, Json
 
 Recvs == {"ref", "mut", "own", "pinref", "pinmut"}
 ArgShapes == {"none", "i64", "cstruct", "ref", "mutref", "slice", "mutslice", "str",
-              "opt", "optnpo", "optptr", "optmut", "slice64", "slicezst", "optstruct", "rawptr", "result", "into", "callback", "iter"}
+              "opt", "optnpo", "optptr", "optmut", "slice64", "mutslice64", "slicezst", "optstruct", "rawptr", "result", "into", "callback", "iter"}
 RetShapes == {"unit", "i64", "cstruct", "slice", "mutslice", "str", "opt", "optnpo", "optptr", "refret", "mutrefret", "optstruct",
               "result", "resunit", "resneg", "resio"}
 
@@ -30,7 +30,7 @@ CArg(a) ==
     [] a = "opt" -> <<"COption<u64>">> [] a = "optnpo" -> <<"Option<&u64>">>
     \* a raw pointer has no niche: Option<*const T> is not null-pointer-optimised and must be wrapped
     [] a = "optptr" -> <<"COption<*constu8>">>
-    [] a = "optmut" -> <<"Option<&mutu64>">> [] a = "slice64" -> <<"CSliceRef<u64>">> [] a = "slicezst" -> <<"CSliceRef<()>">>
+    [] a = "optmut" -> <<"Option<&mutu64>">> [] a = "slice64" -> <<"CSliceRef<u64>">> [] a = "mutslice64" -> <<"CSliceMut<u64>">> [] a = "slicezst" -> <<"CSliceRef<()>">>
     [] a = "optstruct" -> <<"COption<Pt>">> [] a = "rawptr" -> <<"*constu8">>
     [] a = "result" -> <<"CResult<u64,u64>">> [] a = "into" -> <<"u64">>
     [] a = "callback" -> <<"OpaqueCallback<u64>">> [] OTHER -> <<"CIterator<u64>">>
@@ -53,14 +53,14 @@ CRet(t, ir) ==
 
 (* C-representable by the compiler's rules: every type the model predicts is one of these *)
 FfiSafeTypes == {"i64", "i32", "()", "Pt", "&u64", "&mutu64", "CSliceRef<u8>", "CSliceMut<u8>", "COption<u64>", "COption<*constu8>",
-                 "Option<&mutu64>", "CSliceRef<u64>", "CSliceRef<()>", "COption<Pt>", "*constu8",
+                 "Option<&mutu64>", "CSliceRef<u64>", "CSliceMut<u64>", "CSliceRef<()>", "COption<Pt>", "*constu8",
                  "Option<&u64>", "CResult<u64,u64>", "CResult<u64,()>", "CResult<(),()>", "CResult<u64,NegErr>", "u64",
                  "OpaqueCallback<u64>", "CIterator<u64>", "&mutMaybeUninit<u64>",
                  "&CGlueC", "&mutCGlueC", "CGlueC", "Pin<&CGlueC>", "Pin<&mutCGlueC>"}
 
 Borrowing(t) == t \in {"slice", "str", "optnpo", "mutslice", "refret", "mutrefret"}
 (* argument shapes that carry an (elided) lifetime of their own *)
-ArgBorrows(a) == a \in {"ref", "mutref", "slice", "mutslice", "str", "optnpo", "optmut", "slice64", "slicezst", "callback", "iter"}
+ArgBorrows(a) == a \in {"ref", "mutref", "slice", "mutslice", "str", "optnpo", "optmut", "slice64", "mutslice64", "slicezst", "callback", "iter"}
 Supported(r, a, t) ==
   /\ (Borrowing(t) => r # "own")               \* nothing to borrow from a consumed receiver
   /\ (t \in {"mutslice", "mutrefret"} => r \in {"mut", "pinmut"})
